@@ -280,7 +280,10 @@ func ConvertConfig(tmplData *configTemplateData, w io.Writer) {
 	var removedItems []string
 	tmplData.Data, removedItems = removeDeprecated(tmplData.Data)
 
-	if len(removedItems) > 0 {
+	// The cleaned data can only be written back as it is when the input already is a v2 config;
+	// a v1 input (no General.ConfigurationVersion) still has to go through the template below.
+	_, isV2 := _fetch(tmplData.Data, "General.ConfigurationVersion")
+	if len(removedItems) > 0 && isV2 {
 		fmt.Fprintf(w, "# The following deprecated config options were removed:\n")
 		for _, item := range removedItems {
 			fmt.Fprintf(w, "# - %s\n", item)
